@@ -54,6 +54,12 @@ def NoValidate : List Op → Prop
   | .validate :: _ => False
   | _ :: t => NoValidate t
 
+instance : (ops : List Op) → Decidable (NoValidate ops)
+  | [] => .isTrue trivial
+  | .validate :: _ => .isFalse id
+  | .recv _ :: t => by unfold NoValidate; exact instDecidableNoValidate t
+  | .send _ :: t => by unfold NoValidate; exact instDecidableNoValidate t
+
 private theorem run_cons (s : St) (op : Op) (t : List Op) : run s (op :: t) = run (step s op) t := rfl
 
 private theorem recvTotal_nonneg (ops : List Op) : ∀ s, AllPre s ops → 0 ≤ recvTotal ops := by
@@ -159,7 +165,8 @@ theorem precondition_needed :
 theorem packetSent_compose (l a b : Int) (ha : 0 ≤ a) (hb : 0 ≤ b) :
     packetSent (packetSent l a) b = packetSent l (a + b) := by
   unfold packetSent unlimited
-  split <;> split <;> omega
+  repeat' split
+  all_goals omega
 
 /-! ## `Conn.maybeSend` as it is -/
 
@@ -167,6 +174,12 @@ def NoValidateC : List COp → Prop
   | [] => True
   | .validate :: _ => False
   | _ :: t => NoValidateC t
+
+instance : (ops : List COp) → Decidable (NoValidateC ops)
+  | [] => .isTrue trivial
+  | .validate :: _ => .isFalse id
+  | .recv _ :: t => by unfold NoValidateC; exact instDecidableNoValidateC t
+  | .csend _ _ :: t => by unfold NoValidateC; exact instDecidableNoValidateC t
 
 /-- The full statement on the model of the send path: whatever the code's own gating
 (`sendLimit ≠ ccBlocked`, packets fit `maxSendSize()`) lets through stays within 3×. -/
@@ -201,9 +214,9 @@ private theorem crecvTotal_nonneg (ops : List COp) : ∀ s, AllCPre s ops → 0 
 theorem overshoot_exact (ops : List COp) : ∀ (s : St), s.credit ≠ unlimited → 0 ≤ s.credit →
     AllCPre s ops → NoValidateC ops → s.credit + 3 * crecvTotal ops < unlimited →
     (crun s ops).sent + (crun s ops).credit = s.sent + s.credit + 3 * crecvTotal ops + overshoot s ops ∧
-    (crun s ops).recvd = s.recvd + crecvTotal ops ∧ 0 ≤ overshoot s ops := by
+    (crun s ops).recvd = s.recvd + crecvTotal ops ∧ 0 ≤ overshoot s ops ∧ 0 ≤ (crun s ops).credit := by
   induction ops with
-  | nil => intro s _ _ _ _ _; simp [crun, crecvTotal, overshoot]
+  | nil => intro s _ h2 _ _ _; simp [crun, crecvTotal, overshoot]; exact h2
   | cons op t ih =>
     intro s h1 h2 hp hv hb
     obtain ⟨hp1, hp2⟩ := hp
@@ -221,7 +234,7 @@ theorem overshoot_exact (ops : List COp) : ∀ (s : St), s.credit ≠ unlimited 
         (by simpa [NoValidateC] using hv) (by rw [hc]; omega)
       rw [crun_cons]; rw [hc, hs, hr] at this
       simp only [overshoot]
-      refine ⟨by omega, by omega, by omega⟩
+      refine ⟨by omega, by omega, by omega, this.2.2.2⟩
     | csend k pad =>
       simp only [CPre, maxSendSize] at hp1
       simp only [crecvTotal] at hb ⊢
@@ -234,7 +247,7 @@ theorem overshoot_exact (ops : List COp) : ∀ (s : St), s.credit ≠ unlimited 
         (by simpa [NoValidateC] using hv) (by rw [hc]; omega)
       rw [crun_cons]; rw [hc, hs, hr] at this
       simp only [overshoot, h1, ne_eq, not_false_eq_true, if_true]
-      refine ⟨by omega, by omega, by omega⟩
+      refine ⟨by omega, by omega, by omega, this.2.2.2⟩
 
 /-- Outside the defect region no send overshoots. -/
 theorem overshoot_zero (ops : List COp) : ∀ (s : St), AllCPre s ops → NoPadOvershoot s ops →
@@ -271,9 +284,6 @@ theorem holds_partial (ops : List COp) (hp : AllCPre St.server ops) (hn : NoPadO
   have e2 : St.server.credit = 0 := rfl
   have e3 : St.server.recvd = 0 := rfl
   rw [e1, e2, e3] at h
-  have : 0 ≤ (crun St.server ops).credit := by
-    -- credit stays non-negative: it is `max 0 …` or grows
-    have := h.1; omega_nat_fail
   omega
 
 end NetVerif.Proofs.C27
